@@ -376,6 +376,37 @@ var c05cells = []c05cell{
 	diskCell("news-delete:bundle", []int{hlref.PrivNewsDeleteFldr}, hlref.TranDelNewsItem,
 		func(x *c05ctx) []hlref.Field { return []hlref.Field{fld(hlref.FNewsPath, p1("Bun"))} },
 		func(x *c05ctx) bool { return !newsChanged(x, "Bun") }),
+	diskCell("news-delete:category-depth3", []int{hlref.PrivNewsDeleteCat}, hlref.TranDelNewsItem,
+		func(x *c05ctx) []hlref.Field { return []hlref.Field{fld(hlref.FNewsPath, p1("Bun", "Deep", "DeepCat"))} },
+		func(x *c05ctx) bool { return !newsChanged(x, "DeepCat") }),
+	diskCell("news-delete:bundle-depth3", []int{hlref.PrivNewsDeleteFldr}, hlref.TranDelNewsItem,
+		func(x *c05ctx) []hlref.Field { return []hlref.Field{fld(hlref.FNewsPath, p1("Bun", "Deep", "DeepBun"))} },
+		func(x *c05ctx) bool { return !newsChanged(x, "DeepBun") }),
+	diskCell("news-delete:category-depth4", []int{hlref.PrivNewsDeleteCat}, hlref.TranDelNewsItem,
+		func(x *c05ctx) []hlref.Field { return []hlref.Field{fld(hlref.FNewsPath, p1("Bun", "Deep", "DeepBun", "Cat4"))} },
+		func(x *c05ctx) bool { return !newsChanged(x, "Cat4") }),
+	diskCell("news-delete:bundle-depth2", []int{hlref.PrivNewsDeleteFldr}, hlref.TranDelNewsItem,
+		func(x *c05ctx) []hlref.Field { return []hlref.Field{fld(hlref.FNewsPath, p1("Bun", "Deep"))} },
+		func(x *c05ctx) bool { return !newsChanged(x, "Deep") }),
+	diskCell("news-new-category:depth3", []int{hlref.PrivNewsCreateCat}, hlref.TranNewNewsCat,
+		func(x *c05ctx) []hlref.Field { return []hlref.Field{sfld(hlref.FNewsCatName, "FreshDeepCat"), fld(hlref.FNewsPath, p1("Bun", "Deep"))} },
+		func(x *c05ctx) bool { return newsChanged(x, "FreshDeepCat") }),
+	diskCell("news-new-bundle:depth3", []int{hlref.PrivNewsCreateFldr}, hlref.TranNewNewsFldr,
+		func(x *c05ctx) []hlref.Field { return []hlref.Field{sfld(hlref.FFileName, "FreshDeepBundle"), fld(hlref.FNewsPath, p1("Bun", "Deep"))} },
+		func(x *c05ctx) bool { return newsChanged(x, "FreshDeepBundle") }),
+	diskCell("news-post:depth3", []int{hlref.PrivNewsPostArt}, hlref.TranPostNewsArt,
+		func(x *c05ctx) []hlref.Field {
+			return []hlref.Field{fld(hlref.FNewsPath, p1("Bun", "Deep", "DeepCat")), fld(hlref.FNewsArtID, hlref.BE32(0)), sfld(hlref.FNewsArtTitle, "fresh-deep-title"), sfld(hlref.FNewsArtDataFlav, "text/plain"), sfld(hlref.FNewsArtData, "body")}
+		},
+		func(x *c05ctx) bool { return newsChanged(x, "fresh-deep-title") }),
+	diskCell("news-delete-article:depth3", []int{hlref.PrivNewsDeleteArt}, hlref.TranDelNewsArt,
+		func(x *c05ctx) []hlref.Field {
+			return []hlref.Field{fld(hlref.FNewsPath, p1("Bun", "Deep", "DeepCat")), fld(hlref.FNewsArtID, hlref.BE32(1))}
+		},
+		func(x *c05ctx) bool { return !newsChanged(x, "deep-article") }),
+	replyCell("news-article-data:depth3", []int{hlref.PrivNewsReadArt}, hlref.TranGetNewsArtData, hlref.FNewsArtData, func(x *c05ctx) []hlref.Field {
+		return []hlref.Field{fld(hlref.FNewsPath, p1("Bun", "Deep", "DeepCat")), fld(hlref.FNewsArtID, hlref.BE32(1)), sfld(hlref.FNewsArtDataFlav, "text/plain")}
+	}),
 	{name: "invite-new-chat", effects: [][]int{{hlref.PrivOpenChat}}, run: func(x *c05ctx) (*hlref.Tran, []bool) {
 		r := x.req.Request(hlref.TranInviteNewChat, fld(hlref.FUserID, hlref.BE16(x.adminID)))
 		return r, []bool{hasType(x.admin.TakeInbox(), hlref.TranInviteToChat)}
@@ -484,6 +515,11 @@ func c05run(rt *rapid.T, cell *c05cell, bits hlref.Access, via ...string) bool {
 		mustOK(x.admin.Request(hlref.TranNewNewsCat, sfld(hlref.FNewsCatName, "Cat")), "new category")
 		mustOK(x.admin.Request(hlref.TranNewNewsFldr, sfld(hlref.FFileName, "Bun")), "new bundle")
 		mustOK(x.admin.Request(hlref.TranNewNewsCat, sfld(hlref.FNewsCatName, "Inner"), fld(hlref.FNewsPath, p1("Bun"))), "nested category")
+		mustOK(x.admin.Request(hlref.TranNewNewsFldr, sfld(hlref.FFileName, "Deep"), fld(hlref.FNewsPath, p1("Bun"))), "bundle at depth 2")
+		mustOK(x.admin.Request(hlref.TranNewNewsCat, sfld(hlref.FNewsCatName, "DeepCat"), fld(hlref.FNewsPath, p1("Bun", "Deep"))), "category at depth 3")
+		mustOK(x.admin.Request(hlref.TranNewNewsFldr, sfld(hlref.FFileName, "DeepBun"), fld(hlref.FNewsPath, p1("Bun", "Deep"))), "bundle at depth 3")
+		mustOK(x.admin.Request(hlref.TranNewNewsCat, sfld(hlref.FNewsCatName, "Cat4"), fld(hlref.FNewsPath, p1("Bun", "Deep", "DeepBun"))), "category at depth 4")
+		mustOK(x.admin.Request(hlref.TranPostNewsArt, fld(hlref.FNewsPath, p1("Bun", "Deep", "DeepCat")), fld(hlref.FNewsArtID, hlref.BE32(0)), sfld(hlref.FNewsArtTitle, "deep-article"), sfld(hlref.FNewsArtData, "deep body")), "post at depth 3")
 		mustOK(x.admin.Request(hlref.TranPostNewsArt, fld(hlref.FNewsPath, p1("Cat")), fld(hlref.FNewsArtID, hlref.BE32(0)), sfld(hlref.FNewsArtTitle, "seed-article"), sfld(hlref.FNewsArtData, "seed body")), "post")
 		r := x.admin.Request(hlref.TranInviteNewChat, fld(hlref.FUserID, hlref.BE16(x.reqID)))
 		mustOK(r, "invite")
